@@ -66,6 +66,13 @@ fn check(spec: &[Vec<&str>], phrase: &str, a: &mut Acc) {
                 let now: Vec<String> = st.iter().map(|w| av::render_word(&word_of(w), None)).collect();
                 let parts: Vec<&str> = ts[2 * j + 1].splitn(2, "=>").collect();
                 if !amer && (parts.len() != 2 || parts[0].trim() != prev.join(" ") || parts[1].trim() != now.join(" ")) { return fail(a, format!("trace line `{}` should read `{} => {}`", ts[2 * j + 1], prev.join(" "), now.join(" "))); }
+                // the property's own wording, through the public API only: the state printed for group i is what a plain run of groups 0..=i prints
+                // (this also covers phrases typed in Americanist notation, whose rendering the structural reference does not model)
+                if parts.len() == 2 {
+                    if let Out::Ok(Ok(pref)) = guarded(b, || asca::run(&groups[..=*gi], &[phrase.to_string()], &[], &[])) {
+                        if pref.len() != 1 || parts[1].trim() != pref[0].trim() { return fail(a, format!("get_trace_string prints `{}` after group {}, a plain run of groups 0..={} prints {:?}", parts[1].trim(), gi, gi, pref)); }
+                    }
+                }
                 prev = now;
             }
             if want.is_empty() { a.silent += 1; } else { a.reported += 1; }
@@ -78,9 +85,11 @@ fn check(spec: &[Vec<&str>], phrase: &str, a: &mut Acc) {
 pub fn run() -> i32 {
     let mut r = Report::new("C16");
     let thorough = r.thorough();
-    r.rule = "rule-group lists G0..Gn (n <= 2 quick, 3 thorough), every group one rule from a 24-rule pool (plus two-rule groups in a second box), phrases of one and two pool words (two of them with an empty word, i.e. two spaces in a row); trace_changes / get_trace_string / run compared with a reference that applies the groups one by one structurally: indices strictly increasing, exactly the changing groups reported, each reported state == plain application of groups 0..i, last state renders as run's output, Err iff run is Err, and the printed trace is the same sequence. Non-trivial = at least one group reported.".into();
+    r.rule = "rule-group lists G0..Gn (n <= 2 quick, 3 thorough), every group one rule from a 24-rule pool (plus two-rule groups in a second box), phrases of one to three pool words (two of them with an empty word, i.e. two spaces in a row; three that spell the same word in Americanist and in IPA notation); trace_changes / get_trace_string / run compared with a reference that applies the groups one by one structurally: indices strictly increasing, exactly the changing groups reported, each reported state == plain application of groups 0..i, last state renders as run's output, Err iff run is Err, and the printed trace is the same sequence. Non-trivial = at least one group reported.".into();
     let pool: Vec<&str> = super::c11::RULE_POOL.iter().copied().step_by(2).chain(["{p,t} > {b}", "% > a", "a > *", "% > * / _%"]).collect();
-    let phrases = ["pa", "ta.pi", "ˈpa.taˌki", "a", "paː sa.pa51", "t ta.pi", "pa pa", "ła.ta pa", "a ta.pi", "pa  ta.pi", "a  pa sa.pa51"];
+    let phrases = ["pa", "ta.pi", "ˈpa.taˌki", "a", "paː sa.pa51", "t ta.pi", "pa pa", "ła.ta pa", "a ta.pi", "pa  ta.pi", "a  pa sa.pa51",
+        // the same word in Americanist and in IPA spelling inside one phrase: equal words, different notation
+        "ła ɬa", "ɬa.ta ła.ta", "¢a t͡sa ¢a"];
     let n = if thorough { 3 } else { 2 };
     let mut specs: Vec<Vec<Vec<&str>>> = vec![];
     for len in 1..=n { for idx in 0..pool.len().pow(len as u32) {
